@@ -32,6 +32,13 @@ func (w *SrvWorld) postRun(rec *RunRecord) {
 				Detail: "socket " + s.Kind + " " + s.Role + " " + s.Addr + " remote " + s.Remote + " still open after the server was closed"})
 		}
 	}
+	w.Net.mu.Lock()
+	for _, s := range w.Net.Socks {
+		if s.CloseCount > 1 && s.Role == "relay" && s.Kind != "tcp-conn" {
+			w.K.Violate(&Violation{Property: "C15", Class: "double-close", Key: kv("kind", s.Kind), Detail: "relay " + s.Kind + " " + s.Addr + " was closed more than once"})
+		}
+	}
+	w.Net.mu.Unlock()
 	if n, first := libGoroutines(); n > 0 {
 		w.K.Violate(&Violation{Property: "C15", Class: "leak", Key: kv("kind", "goroutine"), Detail: first})
 	}
